@@ -513,7 +513,7 @@ pub fn c14(c: &Corpus, tier: &str, seed: u64) -> Vec<Report> {
             let li = LineIndex::new(s);
             let chars: Vec<char> = s.chars().collect();
             let cuts: Vec<usize> = toks.iter().filter(|t| !is_ws(&t.token)).filter_map(|t| li.offset(t.location.line, t.location.column)).collect();
-            let step = if tier == "thorough" { 1 } else { (cuts.len() / 5).max(1) };
+            let step = if tier == "thorough" || cuts.len() <= 60 { 1 } else { (cuts.len() / 30).max(1) };
             let tcv = (i + k) % 2 == 0;
             let o = Opts { unescape: i % 3 != 0, trailing: Some(tcv), limit: Some(41) };
             let probe = "SELECT prior, connect_by_root FROM t ORDER BY a, offset";
@@ -536,7 +536,7 @@ pub fn c14(c: &Corpus, tier: &str, seed: u64) -> Vec<Report> {
                 });
                 match res {
                     G::Val((ok1, Some(st), Some(r2))) => {
-                        if !ok1 { d4.insert((variant_of(&s), k)); }
+                        if !ok1 { d4.insert((s.split_whitespace().take(2).collect::<Vec<_>>().join(" ").to_ascii_uppercase(), k)); }
                         if !(st.1 && st.2 == tcv && st.3 == o.unescape && st.4 == 41) {
                             r4.fail("reuse/state-not-restored".into(), dn, o, &prefix, format!("verif_state={st:?}"));
                         }
